@@ -10,8 +10,8 @@ theorem strData_nodedup (c : Cfg) (h : c.dedup = 0) (level : Nat) (s : String) (
   · simp [seen, h]
   · rfl
 
-theorem head3_nodedup (c : Cfg) (h : c.dedup = 0) (tn : String) (st : St) :
-    (head3 c tn st).1 = [ptypeEv, .add (.str tn), pvalueEv] := by
+theorem head3_nodedup (c : Cfg) (h : c.dedup = 0) (tl : Nat) (tn : String) (st : St) :
+    (head3 c tl tn st).1 = [ptypeEv, .add (.str tn), pvalueEv] := by
   simp [head3, strData_nodedup c h, ptypeEv, pvalueEv]
 
 mutual
